@@ -82,6 +82,10 @@ CHECKS = {
    technique="stateful property-based testing of one real daemon in lock-step simulation against a reference model of the interface table and the ordered enable/disable selections (which interface / family pairs are active at every moment): every packet must leave on an active pair and carry only the service's addresses of that link, peers' announcements are delivered per link and every address in every ServiceResolved event must have been learned on an interface that has not vanished and whose family was not disabled since, the instance of a vanished interface must be reported removed, and at the end a query on every active pair must be answered exactly where the model says",
    text="Exploration: 2.5e4 generated histories on 1-3 interfaces (IPv4 and/or IPv6, different subnets) with 1-9 operations: selections of 7 kinds, interface events (family added / removed, down / up, address moved), register / unregister with explicit addresses in a subset of the subnets or automatic addressing, peers' announcements per interface and family, queries, re-browsing, pauses; ~4.8e5 packets judged for their interface.",
    note="Trusted: simulation hooks (interface table shim, per-interface egress capture), the model of IfKind matching. Not judged: packets within 1100 ms after a table change; an interface vanishing while disabled; answers for explicit-address services on links that appeared after the registration; Predicate / loopback selections; one peer instance per interface (no multi-homed instances)."),
+ "C20": dict(engine=E3, design="6/C20",
+   technique="stateful property-based testing of one real daemon in lock-step simulation under generated traffic floods, with the daemon's own get_metrics() as the observable: after every flood the cached-record and timer counts are compared with a reference count of what the open searches account for, and at rest (every search stopped, the longest TTL passed, and an hour later) with zero",
+   text="Exploration: 2.5e3 generated histories of 1-8 operations with floods of up to 1500 datagrams (announcements of browsed and never-browsed types with distinct names, records without a PTR, one instance flapping, addresses of searched and strange hosts, queries and probes, the C01 hostile families, subtype PTRs; TTL 2 s..75 min), searches and registrations started and stopped, pauses up to an hour; ~1e5 unrelated datagrams in total.",
+   note="Trusted: simulation hooks; the reference count of needed records. Three known findings are excluded by signature (datagrams without a PTR answer are cached whatever is searched for; every received copy adds timers; stale timers are not taken back) - what they leave is bounded by allowances computed per case (records within their TTL, copies received), so growth beyond them is still reported. Cache bounds are not judged in cases with the hostile datagram families (shared name pool)."),
 }
 
 def check_entry(pid, c):
